@@ -540,6 +540,8 @@ func c14ErrorPaths(c *Case) {
 			{"print in END to a full device", []string{"--", "{ n++ } END { print n }", "a.json"}, false},
 			{"-o - to a full device", []string{"-o", "-", "--", "{ }", "a.json"}, false},
 			{"-o - after print to a full device", []string{"-o", "-", "--", "{ print 'x' }", "a.json"}, false},
+			{"-o FILE after print to a full device", []string{"-o", "out-full2.json", "--", "{ print 'x' }", "a.json"}, false},
+			{"-o FILE after printf in BEGIN to a full device", []string{"-o", "out-full3.json", "--", "BEGIN { printf('%s', 'y') }", "a.json"}, false},
 			{"-o FILE with nothing printed, stdout a full device", []string{"-o", "out-full.json", "--", "{ $ = 1 }", "a.json"}, true},
 			{"nothing printed, stdout a full device", []string{"--", "{ n += $ }", "a.json"}, true},
 			{"pattern never true, stdout a full device", []string{"--", "$ > 5 { print }", "a.json"}, true},
